@@ -10,6 +10,8 @@
                    filter, learn, forget, import, add_signature, set_threshold,
                    clock tick, clear_audit_log
      active st     self.signatures ++ self._learned_patterns.values()
+     names_key     the operation learns / imports / forgets exactly this pattern
+                   text (the key of _learned_patterns)
      icheck        InnateImmunity.check with the validators as arbitrary
                    functions content -> VRet valid err_truthy | VRaises *)
 From Coq Require Import String ZArith List Bool.
@@ -142,6 +144,41 @@ Theorem c10_replay_memory_monotone :
     r_allowed (snd (mfilter cfg (fst (mrun cfg st1 ops)) c')) = false.
 Proof. exact m_replay_memory. Qed.
 Print Assumptions c10_replay_memory_monotone.
+
+(* "No ACTIVE signature (... learned or imported) matches": which learned and
+   imported signatures are active.  A signature put into the adaptive memory by
+   learn_threat (enable_adaptive) or import_antibodies (1,2) stays there, with
+   its own level and kind, through EVERY history - filter calls, learning,
+   importing and forgetting other texts, add_signature, threshold changes,
+   clock ticks, clear_audit_log - in which no learn / import / forget names
+   exactly its pattern text (3); "names" is equality of the text as written
+   (4): a text that differs only in letter case, in the case of a regex escape
+   class (\s vs \S) or in surrounding blanks is a different signature and
+   neither overwrites nor deletes it; forget_threat(k) removes the signatures
+   whose text is k and no other (5).  Hence (6) after any such history an input
+   the signature matches is refused whenever its level reaches the current
+   threshold, and every scan reports it among the matched signatures with a
+   level at least its own. *)
+Theorem c10_learned_active_until_named :
+  (forall cfg st g, c_adaptive cfg = true -> In g (m_learned (fst (mstep cfg st (OLearn g))))) /\
+  (forall cfg st l1 g l2, (forall g', In g' l2 -> s_key g' <> s_key g) ->
+     In g (m_learned (fst (mstep cfg st (OImport (l1 ++ g :: l2)))))) /\
+  (forall cfg ops st g,
+     In g (m_learned st) -> forallb (fun op => negb (names_key cfg (s_key g) op)) ops = true ->
+     In g (m_learned (fst (mrun cfg st ops)))) /\
+  (forall cfg k op, names_key cfg k op = true ->
+     op = OForget k \/
+     exists g, s_key g = k /\ (op = OLearn g \/ exists l, op = OImport l /\ In g l)) /\
+  (forall cfg st k g, In g (m_learned (fst (mstep cfg st (OForget k)))) <-> In g (m_learned st) /\ s_key g <> k) /\
+  (forall cfg ops st g c,
+     In g (m_learned st) -> forallb (fun op => negb (names_key cfg (s_key g) op)) ops = true ->
+     sig_matches (c_cc cfg) g c = true ->
+     let st' := fst (mrun cfg st ops) in
+     (m_threshold st' <= s_level g -> r_allowed (snd (mfilter cfg st' c)) = false) /\
+     (r_kind (snd (mfilter cfg st' c)) = Scanned ->
+      In g (r_matched (snd (mfilter cfg st' c))) /\ s_level g <= r_level (snd (mfilter cfg st' c)))).
+Proof. exact learned_active_all. Qed.
+Print Assumptions c10_learned_active_until_named.
 
 (* A colony of membranes (operations addressed to one membrane, antibody
    transfer dst.import_antibodies(src.export_antibodies()), a shared clock):
